@@ -634,7 +634,10 @@ def run_fit(op: Op, U, cfg: Dict[str, Any], constraint: Any, dtype: torch.dtype,
         out = {}
         for k, v in d.items():
             if isinstance(v, torch.Tensor) and v.is_floating_point():
-                t = relayout(v.detach().clone(), layout) if layout in ("noncontig", "all-noncontig") else v.detach().clone()
+                # (conv1d weights stay contiguous: plain F.conv1d on a single thread SEGFAULTS for some geometries - L = 1 with
+                # padding - when the weight has transposed strides; reproduced without any library code, see DESIGN 8.3)
+                relay = layout in ("noncontig", "all-noncontig") and not (op.name == "conv1d" and k == "weight")
+                t = relayout(v.detach().clone(), layout) if relay else v.detach().clone()
                 out[k] = t.requires_grad_(True) if (k in op.diff and k != frozen) else t
             elif isinstance(v, torch.Tensor):
                 out[k] = v.detach().clone()
